@@ -97,6 +97,9 @@ def defect_class(v):
         if x[0] == 'M' and any(len(k) == 0 for k, _ in x[1]):
             return 'empty-key'
     for x in walk(v):
+        if x[0] == 'M' and any(re.match(rb'^[-.0-9]+$', k) and not re.match(rb'^-?([0-9]+\.?[0-9]*|\.[0-9]+)$', k) for k, _ in x[1]):
+            return 'key-with-misplaced-sign'
+    for x in walk(v):
         if x[0] == 'S' and len(x[1]) == 0:
             return 'empty-string'
     for x in walk(v):
@@ -148,7 +151,9 @@ R_INTS = [0, 1, -1, 2, 10, 42, -7, 255, 65536, 2 ** 31, 2 ** 32 + 1, 10 ** 15, T
 R_FLOATS = ['1.5', '0.1', '-0.25', '3.0', '1e+16', '1e300', '123456789.123456', '2.5e-10', '0.3333333333333333',
             '1.7976931348623157e+308', '5e-324', '6.02214076e23', '1e15', '123456789012345.6', '100.0']
 R_KEYS = [b'a', b'b', b'key', b'x y', b'1', b'2', b'3', b'0', b'-1', b'007', b'10', b'1.5', b'\xc3\xa4', b'true', b'nil',
-          b'_event', b'a.b', b'12abc', b'20']
+          b'_event', b'a.b', b'12abc', b'20',
+          # not numbers, although made of numeral characters: isInteger/isNumeric as pinned accept '-' anywhere
+          b'1-2', b'-', b'1-', b'--1', b'2-', b'10-0', b'1.2.3', b'.']
 # (no large integer-like keys: a table with the single key 10^9 is read back by getLuaAsData as an array
 #  with 10^9 - 1 nil entries, which exhausts memory -- see the report)
 
@@ -312,9 +317,10 @@ def run(c):
     # the empty compound key after a conversion that left a positive long on the stack (undefined
     # behaviour: two witnesses; the source fact from the translator decides when neither deviates)
     wit_key = [tree(('A', [('I', 5), ('M', [(b'', ('I', 7))])])), tree(('A', [('I', 123456), ('M', [(b'', ('S', b'x')), (b'a', ('I', 1))])]))]
+    wit_sign = tree(('M', [(b'1-2', ('S', b'abc'))]))
     rc, o, e = run_lines(vdriver, ['lua-drt V[]{}', 'lua-lrt ' + hx(literal(wit_arr).encode()), 'lua-lrt ' + hx(literal(wit_big).encode())] +
-                         ['lua-drt ' + t for t in wit_key])
-    if len(o) < 5:
+                         ['lua-drt ' + t for t in wit_key] + ['lua-drt ' + wit_sign])
+    if len(o) < 6:
         raise BuildError('vdriver did not answer the witness probes: %s %s' % (o, e[-500:]))
     tinfo = c.notes.get('translators', {}).get('tr_luaprotected', {})
     vec = {
@@ -323,16 +329,18 @@ def run(c):
         'int_via_double': 0 if o[2].split()[0] == 'first=' + tree(wit_big) else 1,
         'empty_key_undefined': 1 if (o[3] != wit_key[0] or o[4] != wit_key[1] or tinfo.get('src_empty_key_reaches_strTo', False)) else 0,
     }
-    vr = '%d%d%d%d' % (vec['empty_atom_is_nil'], vec['keys_sorted_as_text'], vec['int_via_double'], vec['empty_key_undefined'])
+    vec['sign_anywhere'] = 0 if o[5] == wit_sign else 1
+    vr = '%d%d%d%d%d' % (vec['empty_atom_is_nil'], vec['keys_sorted_as_text'], vec['int_via_double'], vec['empty_key_undefined'], vec['sign_anywhere'])
     c.notes['defect_vector'] = vec
     c.notes['empty_key_witness_outputs'] = o[3:5]
     c.notes['theorem_regime'] = {
-        'marshal_roundtrip': ('applies without restriction (marshal_roundtrip_fixed)' if vr == '0000' else
+        'marshal_roundtrip': ('applies without restriction (marshal_roundtrip_fixed)' if vr == '00000' else
                               'applies under variant_ok for the switches that are on; the full statement is refuted by: ' +
                               ', '.join(n for n, on in (('marshal_roundtrip_empty_string_refuted', vec['empty_atom_is_nil']),
                                                         ('marshal_roundtrip_long_array_refuted', vec['keys_sorted_as_text']),
                                                         ('marshal_roundtrip_big_integer_refuted', vec['int_via_double']),
-                                                        ('marshal_roundtrip_empty_key_refuted', vec['empty_key_undefined'])) if on)),
+                                                        ('marshal_roundtrip_empty_key_refuted', vec['empty_key_undefined']),
+                                                        ('marshal_roundtrip_sign_position_refuted', vec['sign_anywhere'])) if on)),
     }
 
     # ---- 2. the regenerated guard list against a probe of assign on each name
@@ -559,7 +567,7 @@ def run(c):
     numtexts = sorted(set(I_ATOMS + [f.encode() for f in R_FLOATS] + [b'%d' % i for i in R_INTS] + [b'1.5.2-3', b'-1.5', b'.5', b'-.', b'12.', b'0.1.']))
     numtexts = [t for t in numtexts if t and re.match(rb'^[-.0-9]+$', t)]
     rc, n1, _ = run_lines(vdriver, ['lua-num ' + hx(t) for t in numtexts])
-    rc, n2, _ = run_lines(vmodel, ['num ' + hx(t) for t in numtexts])
+    rc, n2, _ = run_lines(vmodel, ['num %s %s' % (vr, hx(t)) for t in numtexts])
     num_dis = [(t.decode(), a, b) for t, a, b in zip(numtexts, n1, n2) if a != b]
     c.notes['number_standin_probes'] = len(numtexts)
     for t, a, b in num_dis[:3]:
